@@ -44,6 +44,7 @@ type Eng struct {
 	objTypes   *ObjTypes
 	watch      []string
 	findings   []*Finding
+	globalInvs map[string][]Clause // package path -> package-level invariants
 }
 
 // findingsFor returns the recorded findings for an obligation base name.
@@ -342,6 +343,12 @@ func load(repo, verifDir string, patterns []string) (*Eng, error) {
 			e.specFuncs[sf.Pkg][n] = s
 		}
 		e.lemmas = append(e.lemmas, sf.Lemmas...)
+		for _, g := range sf.Globals {
+			if e.globalInvs == nil {
+				e.globalInvs = map[string][]Clause{}
+			}
+			e.globalInvs[g.Pkg] = append(e.globalInvs[g.Pkg], g.Clause)
+		}
 		for k, c := range sf.Funcs {
 			key := k
 			if sf.Pkg != "" {
